@@ -11,6 +11,8 @@
  *                                       redirect_track for this process                         -> ok
  *   reset                               clear every map, PARAM := 0, clock := 1e9              -> ok
  *   param <ctlpid> <sockmark> <dae0if> <usepeer> <peermac 12hex> [<netns>]                     -> ok
+ *   paramimg <hex>                      PARAM := these bytes (the image the control plane's struct literal serialises to);
+ *                                       -> port= pid= dae0= netns= mac= peer= task= mark= size=  as the programs read them
  *   clock <ns>                          bpf_ktime_get_ns() := ns                               -> ok
  *   rules <n> {<48hex>}*n | meta <n> | dom <32hex> <256hex> | domdel <32hex>   (as the C02 driver) -> ok
  *   lpm <slot> <nkeys> {<prefixlen>:<32hex>}*   lpm_array_map[slot] = new LPM trie with these keys  -> ok
@@ -36,6 +38,15 @@
  *                                          (the Go side loads them into kernel maps and runs the real
  *                                          RetrieveRoutingResult)
  *   jan <aggressive> <age>              -> the same raw dump (the Go side runs the real janitors on it)
+ *   cg <prog> <cookie> <tgid> <hastask> <comm hex|=|-> <args hex|=|->
+ *                                       one of the cgroup programs (prog = create | release | connect4 | connect6 |
+ *                                       sendmsg4 | sendmsg6) runs for socket cookie <cookie> in the context of a task
+ *                                       with that tgid, comm (`-`: bpf_get_current_comm fails) and command line at
+ *                                       mm->arg_start (`-`: the user read faults; `=`: empty string);
+ *                                       PARAM.has_bpf_get_current_task := hastask          -> rc=<ret> ck=[..]
+ *   jan4 <aggr> <age> <staleago> | jsnap <aggr> <age> <staleago> | jdel
+ *                                       -> raw dump of conn_state_map, routing_handoff_map, redirect_track and
+ *                                          cookie_pid_map (the Go side runs the real janitors on them)
  *   const <name>                        -> =<value compiled into the kernel program>
  *   anything else                       -> -
  */
@@ -169,6 +180,61 @@ __u64 bpf_get_socket_cookie(void *ctx)
 {
 	(void)ctx;
 	return cur_cookie;
+}
+
+/* ---- the current task as the cgroup programs see it */
+static uint64_t cur_pid_tgid;
+static int comm_ok;
+static char cur_comm[16];
+static int args_ok;
+static char cur_args[512]; /* NUL-terminated command line in "user memory" */
+static struct mm_struct cur_mm;
+static struct task_struct cur_task;
+
+__u64 bpf_get_current_pid_tgid(void)
+{
+	return cur_pid_tgid;
+}
+
+__u64 bpf_get_current_task(void)
+{
+	cur_mm.arg_start = (unsigned long)cur_args;
+	cur_task.mm = &cur_mm;
+	return (__u64)(uintptr_t)&cur_task;
+}
+
+/* kernel: strscpy_pad of task->comm; on failure the buffer is zeroed and a negative value returned */
+long bpf_get_current_comm(void *buf, __u32 size)
+{
+	if (!comm_ok) {
+		memset(buf, 0, size);
+		return -EINVAL;
+	}
+	memset(buf, 0, size);
+	memcpy(buf, cur_comm, size < sizeof(cur_comm) ? size : sizeof(cur_comm));
+	return 0;
+}
+
+/* kernel (bpf_probe_read_user_str): copies at most sz-1 bytes plus the NUL, returns the length including the
+ * NUL; the rest of the buffer is NOT padded (filled with junk here so that a read beyond the NUL shows);
+ * on a fault the buffer is zeroed and -EFAULT returned */
+long bpf_core_read_user_str(void *dst, __u32 sz, const void *src)
+{
+	size_t n;
+
+	if (!sz)
+		return 0;
+	if (!args_ok || !src) {
+		memset(dst, 0, sz);
+		return -EFAULT;
+	}
+	n = strlen((const char *)src);
+	if (n > sz - 1)
+		n = sz - 1;
+	memset(dst, 0x5A, sz);
+	memcpy(dst, src, n);
+	((char *)dst)[n] = 0;
+	return (long)n + 1;
 }
 
 static struct bpf_sock *sock_table_lookup(int proto, struct bpf_sock_tuple *t, __u32 sz, __u64 netns, __u64 flags)
@@ -570,11 +636,14 @@ int main(void)
 		}
 		if (!have_caps) {
 			uint32_t c1 = MAX_CONN_STATE_NUM, c2 = MAX_ROUTING_HANDOFF_NUM, c3 = MAX_REDIRECT_TRACK_NUM;
+			uint32_t c4 = (uint32_t)SHIM_ARRLEN(cookie_pid_map.max_entries);
 
-			if (!strcmp(toks[0], "caps") && n == 4) {
+			if (!strcmp(toks[0], "caps") && (n == 4 || n == 5)) {
 				c1 = (uint32_t)strtoul(toks[1], NULL, 10);
 				c2 = (uint32_t)strtoul(toks[2], NULL, 10);
 				c3 = (uint32_t)strtoul(toks[3], NULL, 10);
+				if (n == 5)
+					c4 = (uint32_t)strtoul(toks[4], NULL, 10);
 			}
 			shim_strict = 1;
 			m_routing = SHIM_REG_KV(routing_map);
@@ -583,7 +652,8 @@ int main(void)
 			m_lpm_array = SHIM_REG_SZ(lpm_array_map);
 			m_routectx = SHIM_REG_KV(route_ctx_scratch_map);
 			m_alive = SHIM_REG_KV(outbound_connectivity_map);
-			m_cookie = SHIM_REG_KV(cookie_pid_map);
+			m_cookie = shim_map_register(&cookie_pid_map, "cookie_pid_map", (int)SHIM_ARRLEN(cookie_pid_map.type),
+						     sizeof(__u64), sizeof(struct pid_pname), c4);
 			m_stats = SHIM_REG_KV(bpf_stats_map);
 			m_parse = SHIM_REG_KV(parse_ctx_scratch_map);
 			m_pkt = SHIM_REG_KV(pkt_scratch_map);
@@ -630,6 +700,26 @@ int main(void)
 			memcpy(p->dae0peer_mac, mac, 6);
 			p->dae_netns_id = n == 7 ? (uint32_t)strtoul(toks[6], NULL, 10) : 0;
 			puts("ok");
+		} else if (!strcmp(toks[0], "paramimg") && n == 2) {
+			unsigned char img[256];
+			size_t ln = strlen(toks[1]) / 2;
+			struct dae_param *p = param_rw();
+
+			if (strlen(toks[1]) % 2 || ln > sizeof(img) || unhex(toks[1], img, ln)) {
+				puts("bad-op");
+				continue;
+			}
+			if (ln != sizeof(struct dae_param)) {
+				/* cilium/ebpf refuses a value whose size differs from the variable's */
+				printf("size-mismatch go=%zu c=%zu\n", ln, sizeof(struct dae_param));
+				continue;
+			}
+			memcpy(p, img, ln);
+			printf("port=%u pid=%u dae0=%u netns=%u mac=", PARAM.tproxy_port, PARAM.control_plane_pid, PARAM.dae0_ifindex,
+			       PARAM.dae_netns_id);
+			puthex((const unsigned char *)PARAM.dae0peer_mac, 6);
+			printf(" peer=%u task=%u mark=%u size=%zu\n", (unsigned)PARAM.use_redirect_peer,
+			       (unsigned)PARAM.has_bpf_get_current_task, PARAM.dae_socket_mark, sizeof(struct dae_param));
 		} else if (!strcmp(toks[0], "clock") && n == 2) {
 			shim_ktime_ns = strtoull(toks[1], NULL, 10);
 			puts("ok");
@@ -976,6 +1066,69 @@ int main(void)
 			printf(" now=%llu\n", (unsigned long long)shim_ktime_ns);
 			shim_map_delete(m_conn, &k);
 			shim_map_delete(m_conn, &r);
+		} else if (!strcmp(toks[0], "cg") && n == 7) {
+			struct snap b_ck, a_ck;
+			struct bpf_sock sk_ctx;
+			struct bpf_sock_addr sa_ctx;
+			int ret, bad = 0;
+			size_t ln;
+
+			memset(&sk_ctx, 0, sizeof(sk_ctx));
+			memset(&sa_ctx, 0, sizeof(sa_ctx));
+			cur_cookie = strtoull(toks[2], NULL, 10);
+			cur_pid_tgid = (strtoull(toks[3], NULL, 10) << 32) | 0x1234; /* low half: the thread id */
+			param_rw()->has_bpf_get_current_task = (uint8_t)strtoul(toks[4], NULL, 10);
+			memset(cur_comm, 0, sizeof(cur_comm));
+			comm_ok = strcmp(toks[5], "-") != 0;
+			if (comm_ok && strcmp(toks[5], "=")) {
+				ln = strlen(toks[5]) / 2;
+				if (strlen(toks[5]) % 2 || ln > sizeof(cur_comm) || unhex(toks[5], (unsigned char *)cur_comm, ln))
+					bad = 1;
+			}
+			memset(cur_args, 0, sizeof(cur_args));
+			args_ok = strcmp(toks[6], "-") != 0;
+			if (args_ok && strcmp(toks[6], "=")) {
+				ln = strlen(toks[6]) / 2;
+				if (strlen(toks[6]) % 2 || ln >= sizeof(cur_args) || unhex(toks[6], (unsigned char *)cur_args, ln))
+					bad = 1;
+			}
+			if (bad) {
+				puts("bad-op");
+				continue;
+			}
+			snap_take(m_cookie, sizeof(__u64), sizeof(struct pid_pname), &b_ck);
+			if (!strcmp(toks[1], "create"))
+				ret = tproxy_wan_cg_sock_create(&sk_ctx);
+			else if (!strcmp(toks[1], "release"))
+				ret = tproxy_wan_cg_sock_release(&sk_ctx);
+			else if (!strcmp(toks[1], "connect4"))
+				ret = tproxy_wan_cg_connect4(&sa_ctx);
+			else if (!strcmp(toks[1], "connect6"))
+				ret = tproxy_wan_cg_connect6(&sa_ctx);
+			else if (!strcmp(toks[1], "sendmsg4"))
+				ret = tproxy_wan_cg_sendmsg4(&sa_ctx);
+			else if (!strcmp(toks[1], "sendmsg6"))
+				ret = tproxy_wan_cg_sendmsg6(&sa_ctx);
+			else {
+				free(b_ck.buf);
+				puts("bad-op");
+				continue;
+			}
+			snap_take(m_cookie, sizeof(__u64), sizeof(struct pid_pname), &a_ck);
+			printf("rc=%d", ret);
+			snap_diff("ck", &b_ck, &a_ck);
+			putchar('\n');
+			free(b_ck.buf);
+			free(a_ck.buf);
+		} else if ((!strcmp(toks[0], "jan4") && n == 4) || (!strcmp(toks[0], "jsnap") && n == 4) || (!strcmp(toks[0], "jdel") && n == 1)) {
+			snap_dump("conn", m_conn, sizeof(struct tuples_key), sizeof(struct conn_state));
+			putchar(' ');
+			snap_dump("ho", m_handoff, sizeof(struct tuples_key), sizeof(struct routing_handoff_entry));
+			putchar(' ');
+			snap_dump("rt", m_rtrack, sizeof(struct redirect_tuple), sizeof(struct redirect_entry));
+			putchar(' ');
+			snap_dump("ck", m_cookie, sizeof(__u64), sizeof(struct pid_pname));
+			printf(" now=%llu\n", (unsigned long long)shim_ktime_ns);
 		} else if (!strcmp(toks[0], "const") && n == 2) {
 			size_t i;
 			int found = 0;
